@@ -36,6 +36,9 @@ ROS_L = ["add a=1", "add b=2 c=3", "set x=y", "add name=q", "set [ find default=
 KEYWORD_ROWS = {   # rows that are keywords of the vendor's own syntax elsewhere, legal as ordinary nested lines
     "nokia": ["configure", "exit", "info"], "juniper": ["configure", "exit", "top"], "ribbon": ["configure", "exit"],
     "huawei": ["return", "system-view"], "h3c": ["return"], "pc": ["exit", "configure"], "routeros": [],
+    # IOS-XR drops rows ENDING with its policy terminators; rows merely starting with those words are ordinary lines
+    "iosxr": ["end-policy-map", "endif-marker x", "end-set-legacy knob"],
+    "cisco": ["endif-marker x"], "arista": ["end-policy-map"],
 }
 
 
@@ -131,8 +134,17 @@ def check(case):
     vendor = case["vendor"]
     tree = case["tree"]
     t = _to_odict(tree)
+    # the patch/deploy path asks for an indent-less formatter first; whatever was requested before, a later request gets what it asks for
+    sut.registry()[vendor].make_formatter(indent="")
     fmt = sut.registry()[vendor].make_formatter(indent=case["indent"])
     labels = ["vendor:" + vendor]
+    dflt = sut.registry()[vendor].make_formatter()
+    tdef = dflt.join(_to_odict(case["tree"]))
+    if not case.get("nokia_wrapper"):
+        from annet.annlib.tabparser import parse_to_tree as _p
+        if _order(_p(tdef, dflt.split)) != _order(_to_odict(case["tree"])):
+            raise Violation("roundtrip", f"{vendor}: with the default formatter (requested after an indent-less one) parse(join(t)) != t",
+                            {"vendor": vendor, "text": tdef})
     if _depth(tree) >= 3:
         labels.append("depth>=3")
     if _two_blocks(tree):
